@@ -3,7 +3,8 @@
    A file is a GSI block followed by blocks; a block is a user-data block (any 128 bytes whose extension block number
    is 0xFE) or a subtitle block: arbitrary subtitle group / subtitle number / cumulative status / comment flag bytes,
    any extension block number but 0xFE, any four bytes as in and as out timecode, any vertical
-   position and justification byte, and a text field as in Proofs/StlReadRows.v (open subtitling) or Proofs/StlReadTtx.v (teletext).  [denote_blocks] says what they mean:
+   position and justification byte, and a text field as in Proofs/StlReadRows.v (open subtitling) or Proofs/StlReadTtx.v (teletext: rows with
+   the start box written or omitted).  [denote_blocks] says what they mean:
    one cue per subtitle block, in order.  read_rendered_blocks: the reader returns exactly that, for both values of the
    ignore-programme-start option. *)
 From Coq Require Import List ZArith NArith Bool Lia ZifyBool ZifyN ZifyNat.
@@ -14,7 +15,7 @@ Import ListNotations.
 Open Scope Z_scope.
 
 (* the text field: rows of an open-subtitling file, or rows of a teletext-standard file *)
-Inductive rtext := TOpen (rows : list (list relem)) | TTtx (rows : list srow).
+Inductive rtext := TOpen (rows : list (list relem)) | TTtx (rows : list brow).
 Definition text_bytes (t : rtext) : str := match t with TOpen rows => field_bytes rows | TTtx rows => tfield_bytes rows end.
 Definition text_okb (open : bool) (t : rtext) : bool :=
   match t with TOpen rows => open && rows_ok rows | TTtx rows => negb open && trows_ok rows end.
